@@ -204,7 +204,13 @@ class Tree:
                             ac.add_resource(v, name, types, **kw)
                             env.log("added-private", path, phase, tname, name, label)
                         continue
-                    ac.add_resource(v, name, types, **kw)
+                    try:
+                        ac.add_resource(v, name, types, **kw)
+                    finally:
+                        if isinstance(types, list):
+                            # the publisher re-uses its list of types for something else right away
+                            types.clear()
+                            types.append(CompFail)
                     if kw:
                         env.log("td-reg", "res:" + label)
                     env.log("added", path, phase, tname, name, label)
